@@ -174,7 +174,7 @@ def main():
             if n_rej <= 8:
                 R.broke("correspondence:envelope model %s Go on %s (shape %s, Go: %s)" % (
                     "outcome differs from" if what == "1" else "re-encoding differs from", c["label"], c["shape"], c["expect"]["kind"]),
-                    json.dumps({"hex": c["hex"][:400], "expect": c["expect"], "oracle": (c["oracle"] or [])[:6]}))
+                    json.dumps({"hex": c["hex"][:120], "expect": c["expect"]["kind"], "oracle": (c["oracle"] or [])[:4]}))
     # ---- dispatch
     dbyid = {c["id"]: c for c in dcs}
     for c in dcs:
@@ -228,7 +228,16 @@ def main():
     st["hashproto_evaluations"] = nh
 
     # ---- concrete findings of the harness
+    # interleave the classes so that the (at most five) replay files written show every class found
+    bycls = {}
     for f in o["findings"]:
+        bycls.setdefault(f["class"], []).append(f)
+    ordered = []
+    while any(bycls.values()):
+        for k in ("panic", "roundtrip", "decode-panic"):
+            if bycls.get(k):
+                ordered.append(bycls[k].pop(0))
+    for f in ordered:
         rep = {"key": f["key"], "format": f["format"], "input": f["input"], "duty": f["duty"], "signed": f["signed"],
                "class": f["class"], "type": f["type"], "op": f.get("op", ""), "msg": f["msg"],
                "how": "./check C14 --replay <this file> feeds the input to ParSignedDataFromProto / UnsignedDataSetFromProto under every duty type and applies the post-decode operations"}
